@@ -476,8 +476,8 @@ Section Sound.
       unfold den, resolve in *. cbn [res fst snd bden]. now rewrite H2, H4.
     - (* Heads *) destruct (IHe c Hc Hw) as [H1 H2]. split; [exact H1|].
       unfold den, resolve in *. cbn [res fst snd bden]. now rewrite H2.
-    - (* HeadsRange *) destruct Hw as [Hwa [Hwb Hwf]]. destruct (IHe1 c Hc Hwa) as [H1 H2].
-      destruct (IHe2 c Hc Hwb) as [H3 H4]. destruct (IHe3 c Hc Hwf) as [H5 H6].
+    - (* HeadsRange *) destruct Hw as [Hwa [Hwb Hwc]]. destruct (IHe1 c Hc Hwa) as [H1 H2].
+      destruct (IHe2 c Hc Hwb) as [H3 H4]. destruct (IHe3 c Hc Hwc) as [H5 H6].
       split; [repeat split; assumption|].
       rewrite !den_HeadsRange by assumption. unfold range_set. now rewrite H2, H4, H6.
     - (* Roots *) destruct (IHe c Hc Hw) as [H1 H2]. split; [exact H1|].
